@@ -92,6 +92,11 @@ var spKinds = []spKind{
 		}
 		return out
 	}, false, true, false},
+	// every single-line statement type as the element of a block (the restorer renders Before, the Start
+	// decorations, the statement, the End decorations and After per node type)
+	stmtKind("send", "c <- e%d"), stmtKind("incdec", "e%d++"), stmtKind("assign", "e%d = 1"), stmtKind("define", "e%d := 1"),
+	stmtKind("go", "go e%d()"), stmtKind("defer", "defer e%d()"), stmtKind("goto", "goto e%d"),
+	stmtKind("decl", "var e%d int"), stmtKind("return", "return e%d"),
 	{"SelectStmt.Comms", func(n int) string {
 		return "package p\n\nfunc f() {\n\tselect {\n" + labels(n, func(i int) string { return fmt.Sprintf("\tcase <-e%d:", i) }, "\n") + "\n\t}\n}\n"
 	}, func(f *dst.File) []dst.Node {
@@ -221,6 +226,19 @@ var spKinds = []spKind{
 		}
 		return out
 	}),
+}
+
+// stmtKind: a block whose elements are statements of one type (format holds the label e%d once)
+func stmtKind(name, format string) spKind {
+	return spKind{Name: "BlockStmt.List(" + name + ")", Src: func(n int) string {
+		return "package p\n\nfunc f() {\n" + labels(n, func(i int) string { return "\t" + fmt.Sprintf(format, i) }, "\n") + "\n}\n"
+	}, Elems: func(f *dst.File) []dst.Node {
+		var out []dst.Node
+		for _, s := range f.Decls[0].(*dst.FuncDecl).Body.List {
+			out = append(out, s)
+		}
+		return out
+	}, Decs: true, KeepLast: true, Expr: false}
 }
 
 func exprKind(name string, src func(n int) string, elems func(f *dst.File) []dst.Node) spKind {
